@@ -114,7 +114,7 @@ func (t *acqTable) acquires(f *ssa.Function, depth int) map[lockAcq]bool {
 
 func noReentrantLocking(r *R, pkgFrag string) {
 	t := &acqTable{memo: map[*ssa.Function]map[lockAcq]bool{}, busy: map[*ssa.Function]bool{}}
-	for _, fn := range r.modFuncs() {
+	for _, fn := range r.modFuncsAll() { // helpers split out of a function hold their locks themselves
 		if !strings.Contains(fname(fn), pkgFrag) || pkgFrag == "martian." && strings.Contains(fname(fn), "martian/") {
 			continue
 		}
